@@ -123,6 +123,10 @@ def feeOf (L : Ledger) (tx : Tx) : Int :=
   `.other` with the payload datum `"ca"`. -/
 def isApprop (tx : Tx) : Bool := tx.kind == .other && tx.pdatas == ["ca"]
 
+/-- every input is an unspent output of the CR assets address -/
+def fromAssets (L : Ledger) (assets : Nat) (tx : Tx) : Bool :=
+  tx.ins.all fun p => match L.find p with | some e => e.addr == assets | none => false
+
 /-- `DefaultChecker.ContextCheck` of a CRCAppropriation at a height from CRCommitteeStartHeight on, in the
     order of the code: duplicate hash (ErrTxDuplicate 22011), referenced transactions known
     (ErrTxUnknownReferredTx 22009), `IsDoubleSpend` (ErrTxDoubleSpend 22007), then the special check
@@ -135,7 +139,7 @@ def ctxApprop (L : Ledger) (assets : Nat) (appr : Option Int) (tx : Tx) : Nat :=
   else match appr with
     | none => 22006
     | some amt =>
-      if !(tx.ins.all fun p => match L.find p with | some e => e.addr == assets | none => false) then 22006
+      if !(fromAssets L assets tx) then 22006
       else if sumIns L tx != some (sumOuts tx) then 22006
       else if (tx.outs.head?.map (·.value)) != some amt then 22006
       else 0
